@@ -228,7 +228,40 @@ def ledger_survives_prepare_rule(ctx: Ctx, rid: str):
                key=f"{rid}|ResourceScenario.prepareScheduling|{fld}")
 
 
+def once_per_scenario_rule(ctx: Ctx, rid: str):
+    """Calling schedule() again must leave everything as the first call left it.  Tasks that were placed are skipped by the work
+    list, but a task that could NOT be placed would be walked again over the bookings and limit counters its first attempt left
+    behind.  So the per-scenario work of Project.schedule is done at most once: in the scenario loop, prepareScenario /
+    scheduleScenario are dominated by the false branch of a membership test on a record of processed scenarios, and the record
+    is extended with the scenario on the way (CFG dominance + must-facts)."""
+    ps = ctx.repo.func("Project.schedule")
+    g = cfg_of(ps)
+    facts = facts_of(ps)
+    work = [n for n in g.nodes if n.kind == "stmt" and n.ast is not None and any(
+        isinstance(c, ast.Call) and norm(c.func) in ("self.prepareScenario", "self.scheduleScenario") for c in ast.walk(n.ast))]
+    if len(work) < 2:
+        raise AnchorMissing("Project.schedule: prepareScenario / scheduleScenario calls not found")
+    for n in work:
+        call = next(c for c in ast.walk(n.ast) if isinstance(c, ast.Call) and norm(c.func) in ("self.prepareScenario", "self.scheduleScenario"))
+        arg = norm(call.args[0]) if call.args else "?"
+        rec = None
+        for cl in facts.at(n):
+            if len(cl) == 1:
+                (t, pol), = tuple(cl)
+                if pol is False and t.startswith(f"{arg} in self."):
+                    rec = t.split(" in ", 1)[1]
+        adds = [x for x in own_nodes(ps) if isinstance(x, ast.Call) and isinstance(x.func, ast.Attribute) and x.func.attr == "add"
+                and rec is not None and norm(x.func.value) == rec and x.args and norm(x.args[0]) == arg]
+        ok = rec is not None and bool(adds)
+        ctx.ob(rid, f"{ps.qual}: {norm(call)} only for a scenario not yet in {rec or '<no record>'}", (ps, n.ast), ok,
+               "a second schedule() call skips the scenarios the first one processed" if ok else
+               "a second schedule() call runs the scenario again: tasks that could not be placed are walked once more over the bookings "
+               "(and with freshly reset limit counters) of their first attempt, so bookings, limits and costs grow with every call",
+               key=key_of(rid, ps, None, f"once {norm(call.func)}"))
+
+
 def run_extra(ctx: Ctx):
+    once_per_scenario_rule(ctx, "R12.8")
     # ---------------------------------------------------------------- R12.7 nothing of an earlier text is in the objects a text is read with
     from .c15 import per_text_objects_rule
     per_text_objects_rule(ctx, "R12.7")
